@@ -55,6 +55,19 @@ prop('C12',
   "Not decided: byte-for-byte results, checksum/length validity after rewrites (C14), the full port-flag product beyond the enumerated assignments.",
   "custom AST/CFG checker: registry exhaustiveness, path-sensitive reachability under constant environments, mutual (post)dominance, def-use ordering, field-table agreement", "DESIGN.md 5/C12")
 
+prop('C05',
+  "Static analysis of /repo's current source: decides structural necessary conditions of event delivery - the dispatch loop iterates a "
+  "snapshot (or no method mutates the list in place); subscriptions append and the sort is reverse=True on the priority alone, with a "
+  "sticky per-event flag (or unconditional sort) so later default-priority additions are sorted in; the handler return-value protocol is "
+  "decided by constant propagation through the loop body for every (return value, once, invocation form) combination - removed iff "
+  "once/False/(_,True), halted iff True/(True,..)/(); removeListener has no use-before-assignment on any feasible path; the declared-event "
+  "test dominates table mutation (subscribe) and dispatch (raise of an instance); raiseEventNoErrors wraps raiseEvent in a catch-all that "
+  "re-raises only ReventError and calls an arity-compatible hook; CallProxy keeps only weak references whose callback removes the "
+  "listener by the (type, eid) pair addListener passed; autoBindEvents' slice offset equals the literal prefix length. Decides these "
+  "conditions, not delivery semantics over arbitrary handler histories or GC timing.",
+  "Not decided: whether a handler removed by an earlier handler still runs in the same delivery (snapshot semantics), GC timing of weak handlers.",
+  "custom AST/CFG checker: iteration-vs-mutation, constant propagation over enumerated paths (finite protocol table), definite assignment with path feasibility, guard reachability, exception containment", "DESIGN.md 5/C05")
+
 NOT_APPLICABLE = {
   'C16': "Address types: the statement is about numeric/textual agreement over the whole address domain (byte order, mask arithmetic, CIDR parsing, zero-run compression, round trips, rejection of malformed text) - results of computations on runtime values; no shape-level rule is a necessary and telling condition for it (DESIGN.md section 7).",
 }
